@@ -430,13 +430,24 @@ func (e *exec) noteState() {
 	e.states[stateKey(e.p[0].conv)+"|"+stateKey(e.p[1].conv)] = struct{}{}
 }
 
-func (e *exec) panicked(what string, pval any, stack string, extra map[string]any) {
+// panicClass names a panic by its message and the innermost otr frames; a panic
+// inside encode also names the FragmentSize in force.
+func panicClass(what string, pval any, stack string, conv *otr.Conversation) string {
+	fr := otrFrames(stack)
+	cls := fmt.Sprintf("%s panics: %v [%s]", what, pval, fr)
+	if conv != nil && strings.HasPrefix(fr, "otr.(*Conversation).encode") {
+		cls += fmt.Sprintf(" with FragmentSize=%d", conv.FragmentSize)
+	}
+	return cls
+}
+
+func (e *exec) panicked(what string, pval any, stack string, conv *otr.Conversation, extra map[string]any) {
 	e.dead = true
 	d := map[string]any{"panic": fmt.Sprint(pval), "stack": firstLines(stack, 30)}
 	for k, v := range extra {
 		d[k] = v
 	}
-	e.fail(fmt.Sprintf("%s panics: %v [%s]", what, pval, otrFrames(stack)), d)
+	e.fail(panicClass(what, pval, stack, conv), d)
 }
 
 func firstLines(s string, n int) string {
@@ -473,7 +484,7 @@ func (e *exec) deliver(m *lmsg, piece []byte) {
 	r := protectedReceive(to.conv, piece)
 	e.trans++
 	if r.panicked {
-		e.panicked("Receive", r.pval, r.stack, map[string]any{"input": clip(piece), "receiver": to.name, "message": kindName(m.kind)})
+		e.panicked("Receive", r.pval, r.stack, to.conv, map[string]any{"input": clip(piece), "receiver": to.name, "message": kindName(m.kind)})
 		return
 	}
 	if r.err != nil {
